@@ -13,10 +13,13 @@ package account
 //@   modifies allbut(transaction.TxProcessor, types.Transaction, types.txdata, types.Header, []*types.Transaction, params, "bigval")
 // Snapshots and reverts at manager level likewise (the journal below them is under contract for C07); the block gas counter is
 // not account state.
+// gh("lastRevert", manager) is the id of the last snapshot reverted to; snapshot ids grow, so a fresh id has not been reverted to
 //@ func (*Manager).Snapshot   trusted
-//@   modifies allbut(transaction.TxProcessor, types.Transaction, types.txdata, types.Header, []*types.Transaction, params, "bigval", types.GasPool)
+//@   modifies allbut(transaction.TxProcessor, types.Transaction, types.txdata, types.Header, []*types.Transaction, params, "bigval", types.GasPool, "lastRevert")
+//@   ensures result > gh("lastRevert", ref(am))
 //@ func (*Manager).RevertToSnapshot   trusted
 //@   modifies allbut(transaction.TxProcessor, types.Transaction, types.txdata, types.Header, []*types.Transaction, params, "bigval", types.GasPool)
+//@   ensures gh("lastRevert", ref(am)) == revid
 
 // ---------------------------------------------------------------------------------------------------------------------
 // C07: the journal.  Undoing a change log must also take back the provisional version it consumed: after RevertToSnapshot the
